@@ -18,7 +18,7 @@ FOREVER = M - 1
 WALLNOW = M - 2
 B63 = 2 ** 63
 
-THEOREMS = ["C12.time_shift", "C12.base_range", "C12.shifted_same_clock", "C12.shifted_monotone", "C12.shifted_exact",
+THEOREMS = ["C12.F36_far_future_not_exact", "C12.time_shift", "C12.base_range", "C12.shifted_same_clock", "C12.shifted_monotone", "C12.shifted_exact",
             "C12.forever_absorbing", "C12.walltime_shift", "C12.walltime_far_past", "C12.walltime_far_future_partial",
             "C12.walltime_now_shift", "C12.walltime_on_wall_clock", "C12.timeout_past_is_zero", "C12.wait_deadline_past_does_not_block", "C12.F17_as_found", "C12.F8_fixed", "C12.F1_fixed",
             "Tie.time_consts"]
@@ -82,6 +82,9 @@ def gen_lines(rng, n):
             b = sec * 10 ** 9 + ns
             d = max(-2 ** 63, min(2 ** 63 - 1, rng.choice([MAXV - b, MAXV - b - 1, 1 - b, 2 - b, 3 - b, -b])))
         out.append("WT %d %d %d" % (sec, ns, d))
+    # a timespec beyond the int64 nanosecond range with a delta that brings the sum back into range (F36)
+    out.append("WT 10000000000 0 -9223372036854775808")
+    out.append("WT 9223372037 0 -5000000000000000000")
     for _ in range(n // 6):
         out.append("WN %d %d" % (rclock(2), rdelta()))
     for _ in range(n // 6):
@@ -175,12 +178,12 @@ def oracle_T(line, out):
     if f[0] == "WT":
         sec, ns, d = map(int, f[1:])
         b = sec * 10 ** 9 + ns
-        if not (-2 ** 63 <= sec * 10 ** 9 < 2 ** 63) or not (-2 ** 63 <= b < 2 ** 63):
-            if sec < 0:
-                return None if r == WALLNOW else "far-past timespec not elapsed"
-            return None if r == FOREVER else "far-future timespec not FOREVER"
         s = b + d
-        return _wall_expect(s, r)
+        why = _wall_expect(s, r)
+        if why and (not (-2 ** 63 <= sec * 10 ** 9 < 2 ** 63) or not (-2 ** 63 <= b < 2 ** 63)):
+            # the timespec alone is beyond the int64 nanosecond range: the library saturates it before it looks at delta (finding F36)
+            return "far-timespec: " + why
+        return why
     if f[0] == "WN":
         nw, d = map(int, f[1:])
         return _wall_expect(nw + d, r)
@@ -206,7 +209,7 @@ from tracecheck import run_traces
 def run(ctx):
     ctx.proof("DispatchVerif.Props.C12", THEOREMS, extra_modules=["DispatchVerif.Tie.Consts"])
     ctx.assumptions += ["clock readings lie in the representable range: 1 <= uptime, monotonic <= 2^62-1, 2 <= wall <= 2^62-1 (C12.Clocks)",
-                        "a timespec more than 292 years after the epoch is itself treated as FOREVER (walltime_far_future_partial)",
+                        "known finding F36: a timespec more than 292 years from the epoch is saturated before delta is added (walltime_far_future_partial, F36_far_future_not_exact)",
                         "mach time unit = nanosecond (x86-64 Linux)"]
     drv = ctx.driver()
     h = ctx.harness("lfn")
